@@ -260,9 +260,10 @@ ALPHA_BENIGN = ["abcdefghijklmnopqrstuvwxyz0123456789", "@.-_"]
 TAG_LIKE = [":contains", ":is", ":matches", ":notis", ":over", ":copy", ":regex", ":value", ":zone", "gt", "date"]
 ADDRESS_LIKE = ['mailto:"john doe"@example.com', "mailto:a@b.c", 'MAILTO:"x"@y', '<"q"@example.org>', 'sip:"x"', 'x"@y']
 NEAR_KEYWORDS = ["re-body", "mysize", "nonexists", "on-true", "x-address", "theenvelope", "notes", "not", "nothing-special", "notification-id", "sizeable", "exists-x", "bodyguard", "truefalse", "x-envelope", "Not", "NOTE"]
+TEXT_LIKE = ["text:", "text: weekly report, [draft]", "text:\n.\n", "text: x"]
 LIST_LIKE = ['["x"]', '["a"] ["b"]', '[ "a", "b" ]', '["x"]) { discard; stop; } if anyof (exists ["y"]', '["To","Cc"]', '[]', '[""]']
-WHOLE_C06 = NEAR_KEYWORDS + TAG_LIKE + ADDRESS_LIKE + LIST_LIKE + ["", 'a"b', "a\\", "\\Seen", 'x", "y', 'a" :is "b', "] [", "a,b", 'say "hi"', "\\\\", 'end\\', "a\nb", "text:", "#c", "a;b", "{x}", "q'"]
-WHOLE_C19 = NEAR_KEYWORDS + TAG_LIKE + LIST_LIKE + ["", "a,b", "a, b", "[x]", "x]", "[", "a b", "é,ü", ",", "a,", ",a", "list-id", "a,b,c"]
+WHOLE_C06 = NEAR_KEYWORDS + TAG_LIKE + ADDRESS_LIKE + LIST_LIKE + TEXT_LIKE + ["", 'a"b', "a\\", "\\Seen", 'x", "y', 'a" :is "b', "] [", "a,b", 'say "hi"', "\\\\", 'end\\', "a\nb", "text:", "#c", "a;b", "{x}", "q'"]
+WHOLE_C19 = NEAR_KEYWORDS + TAG_LIKE + LIST_LIKE + TEXT_LIKE + ["", "a,b", "a, b", "[x]", "x]", "[", "a b", "é,ü", ",", "a,", ",a", "list-id", "a,b,c"]
 
 
 PREFIX_NEGATED = ("notsize", "notenvelope", "notaddress", "notbody", "notcurrentdate")
